@@ -722,9 +722,21 @@ impl Blockchain {
     }
 
     fn remove_block_transactions(&self, block_hash: &SaitoHash, mempool: &mut Mempool) {
-        mempool
-            .transactions
-            .retain(|_, tx| tx.validate_against_utxoset(&self.utxoset));
+        // besides being unspent, the inputs of a pooled transaction must still be inside the
+        // window for the NEXT block (the check Transaction::validate applies at the intake and
+        // inside a block): the tip may have moved since the transaction was pooled
+        let next_block_id = self.get_latest_block_id() + 1;
+        let genesis_period = self.genesis_period;
+        mempool.transactions.retain(|_, tx| {
+            tx.validate_against_utxoset(&self.utxoset)
+                && (tx.transaction_type == TransactionType::ATR
+                    || tx.transaction_type == TransactionType::Issuance
+                    || !tx.from.iter().any(|slip| {
+                        slip.amount > 0
+                            && slip.slip_type != SlipType::Bound
+                            && slip.block_id + genesis_period < next_block_id
+                    }))
+        });
         let block = self.get_block(block_hash).unwrap();
         // we call delete_tx after removing invalidated txs, to make sure routing work is calculated after removing all the txs
         mempool.delete_transactions(&block.transactions);
